@@ -2,6 +2,8 @@
 
 package raft
 
+import "time"
+
 // Intrinsic declarations for the symbolic engine (gosym). The engine intercepts
 // these functions by name; the bodies are placeholders (Go rejects body-less
 // declarations without an assembly file). Native bodies for replay live in
@@ -62,3 +64,6 @@ func vStrFromCell(x uint64) string         { panic("intrinsic") }
 func vStrToCell(s string) uint64           { panic("intrinsic") }
 func vEncodeConfiguration(c Configuration) []byte { panic("intrinsic") }
 func vBaseAlign12()              { panic("intrinsic") }
+func vTime(name string) time.Time  { panic("intrinsic") }
+func vTimeNs(t time.Time) int64    { panic("intrinsic") }
+func vLastNow() int64              { panic("intrinsic") }
